@@ -24,6 +24,9 @@ PROP = {
             "quick": {"gen": [(4000, 40)], "enum": [("full", 2)]},
             "thorough": {"gen": [(60000, 50)], "enum": [("full", 3), ("core", 4)]},
         }],
+        # AsyncWriteTo / AsyncReadFrom whose callee completes later, with Write / Commit / PrepareRead in between (Go-only byte-list
+        # oracle; the traced scripts run the asynchronous twins over callees that complete inside the call)
+        "direct": [{"component": "bytebuffer"}],
         "rule": "scripts = NewByteBuffer() followed by random calls over the whole public API (Reserve, Commit, Consume, Save, Discard, "
                 "DiscardAll, SavedSlot, Reset, Read, ReadByte, ReadFrom, UnreadByte, Write, WriteByte, WriteString, WriteTo, PrepareRead, "
                 "Claim, ClaimFixed, ShrinkBy, ShrinkTo) mixed with the documented workflows; integer arguments are symbolic and resolved "
